@@ -35,6 +35,8 @@ THEOREMS = [
     "O2P.Gate.post_flat_or_sound_proj",
     "O2P.Gate.or_inference_all_sound",
     "O2P.Gate.missing_and_all_sound",
+    "O2P.Gate.filter_defunct_sound",
+    "O2P.Gate.post_process_sound",
 ]
 
 
